@@ -218,6 +218,43 @@ def judge(ctx, cfgs, sched, reports, out):
                 add("resumed-run-did-not-complete" + where,
                     f"{last.get('status')}: {last.get('exc_type')}@"
                     f"{last.get('exc_where')}: {last.get('exc_msg')}")
+            # none lost: the run must continue from where the signal found
+            # it (standard sampler: the handler checkpoints the current
+            # iteration; importance sampler: the last iteration boundary)
+            sig_it = sig.get("iteration")
+            second = reports[1]
+            d2 = second.get("data") or {}
+            res_it = None
+            if cfg["ins"]:
+                res_it = (d2.get("ckpt") or {}).get("resumed_iteration")
+            elif (d2.get("ns") or {}).get("resumed_at"):
+                res_it = d2["ns"]["resumed_at"][0]
+            afresh = "restarted-afresh" in (second.get("classes") or []) or \
+                "resumed" not in (second.get("classes") or [])
+            expected = sig_it
+            if cfg["ins"] and sig_it is not None:
+                # iteration-triggered boundary checkpoints at multiples of
+                # the interval; before the first one nothing can be resumed
+                iv = int(cfg["kwargs"].get("checkpoint_interval", 1))
+                expected = (sig_it // iv) * iv
+            slack = 0
+            if cfg["ins"] and sig_it is not None:
+                # a signal between the iteration increment and the write of
+                # that iteration's checkpoint resumes one interval earlier
+                slack = iv
+                expected = max(0, expected - iv) if expected - iv <= 0 \
+                    else expected
+            if sig_it is not None and expected > 0 and (
+                    not cfg["ins"] or (sig_it // iv) * iv - iv > 0):
+                sig_it = (sig_it // iv) * iv if cfg["ins"] else sig_it
+                if afresh or res_it is None:
+                    add("signal:discarded-points-lost:restarted-afresh"
+                        + where,
+                        f"signal at iteration {sig_it}; the next process did "
+                        f"not resume from a checkpoint")
+                elif not (sig_it - slack <= res_it <= sig_it):
+                    add("signal:resumed-at-wrong-iteration" + where,
+                        f"signal at iteration {sig_it}, resumed at {res_it}")
             skip = runcheck.known_elsewhere(["C03", "C05"])
             for i, rep in enumerate(reports):
                 for v in rep.get("violations") or []:
